@@ -1102,6 +1102,12 @@ func (u *Unit) frameGoals(st *State, only map[string]bool) []frameGoal {
 	mapMods := map[string]bool{}
 	oldEnv := &SpecEnv{u: u, st: u.entry, old: u.entry, names: map[string]Term{}, cs: u.cs, pkg: u.pkg.Types, own: true, scopePos: u.bodyPos, inOld: true}
 	for _, m := range u.ct.Modifies {
+		if arg, ok := typeWideModifies(m); ok {
+			if sl := u.typeWideSlice(oldEnv, arg); sl != nil {
+				mapMods[u.elemHeap(sl.Elem())] = true
+			}
+			continue
+		}
 		if name, arg, ok := ghostModifies(m); ok {
 			ref := oldEnv.eval(arg)
 			h := u.ghostHeap(name)
